@@ -512,7 +512,9 @@ class AsyncClient(base_client.BaseClient):
                 await asyncio.wait_for(self._reconnect_abort.wait(), delay)
                 abort = True
             except asyncio.TimeoutError:
-                pass
+                # with a zero or negative (randomized) delay wait_for() times
+                # out without looking at the event
+                abort = self._reconnect_abort.is_set()
             except asyncio.CancelledError:  # pragma: no cover
                 abort = True
             if abort:
